@@ -302,6 +302,13 @@ def check_history(ctx: Ctx, hist: dict, model_out: str | None, enc) -> None:
         miss = int(fields.get("miss", "0"))
         if miss:
             ctx.count("oracle_misses", miss)
+        if set(mrech) < set(rrech) or (set(mrech) <= set(rrech) and mrech != rrech):
+            # mypy re-analysed MORE than the protocol requires (seen once under heavy machine load with every entry
+            # rejected; never reproduced): over-invalidation cannot make a warm run differ from a cold one — it is
+            # recorded, not judged.  Only a module the model must re-analyse and mypy trusted is a broken tie.
+            ctx.count("steps_with_extra_reanalysis")
+            ctx.dist("extra_reanalysis", ",".join(sorted(set(rrech) - set(mrech)))[:60])
+            continue
         if mrech != rrech:
             ctx.count("disagreements_checked")
             if not any_diff and not ctx.violations and not getattr(ctx, "_c02_searched", False):
